@@ -9,6 +9,7 @@ def check(model, R, tier):
     RC.check_outsize(model, R, 'C16')
     RC.check_geom(model, R, 'C16', funcs)
     RC.check_empty(model, R, 'C16')
+    RC.check_strided(model, R, 'C16')
     # ACCUMULATE: each col2im-side routine adds window contributions into a zero-initialised buffer
     R.rule('C16.ACCUMULATE', 'every col2im-side routine accumulates window contributions into a zero-initialised buffer (np.add.at, +=, or read-add-store of the same slice)', floor=3)
     sub = _Sub(R, 'C16.ACCUMULATE')
